@@ -547,7 +547,7 @@ func (p c19) e2e(c *core.Ctx) {
 	extra := func() string {
 		var parts []string
 		for i := 0; i < c.Rng.Intn(3); i++ {
-			parts = append(parts, []string{"x=1 2", "note=[a,b] c", "Zed", "q1={k,v}", "embed", "mapper=", "timeLayout= ", "x=  y"}[c.Rng.Intn(8)])
+			parts = append(parts, []string{"x=1 2", "note=[a,b] c", "Zed", "q1={k,v}", "embed", "mapper=", "timeLayout= ", "x=  y", "hint=up to 100%", "fmt=%d of %s", "pct=%"}[c.Rng.Intn(11)])
 		}
 		if len(parts) == 0 {
 			return ""
@@ -656,7 +656,7 @@ func (p c19) crowd(c *core.Ctx) {
 				inner += ",required=false"
 			}
 			if c.Rng.Intn(2) == 0 {
-				inner += []string{",note=[a,b] c", ",x=1 2", ",Zed"}[c.Rng.Intn(3)]
+				inner += []string{",note=[a,b] c", ",x=1 2", ",Zed", ",hint=up to 100%", ",fmt=%v%%"}[c.Rng.Intn(5)]
 			}
 			tag := world.WireTag("prop", inner)
 			fields = append(fields, world.FieldSpec{Name: fmt.Sprintf("F%dx%d", i, j), Type: reflect.TypeOf(""), Tag: tag})
